@@ -342,7 +342,133 @@ def compare(world, img: bytes):
     return None
 
 
+def run_simplegp(ctx):
+    """real SimpleGP search writing its CSV log through the simulated file: every row must be
+    self-consistent (fitness and every extra column computed from that row's own program) and, at
+    a kill between registrations (at a fitness invocation), the file holds complete rows only"""
+    import csv as _csv
+    from geml.simplegp import SimpleGP
+    from ..spec import Built
+    from ..seams import install_set_order
+
+    H = ctx.H
+    install_set_order()
+    spec = {"classes": [{"name": "A0", "kind": "abc", "parent": None, "weight": None, "fields": []},
+                        {"name": "C0", "kind": "data", "parent": "A0", "weight": None, "fields": [["f0", ["ann", ["int"], ["IntRange", 0, 99]]]]},
+                        {"name": "C1", "kind": "data", "parent": "A0", "weight": None, "fields": [["f0", ["cls", "A0"]], ["f1", ["ann", ["str"], ["VarRange", ["a,b", "q\"", "x"]]]]]}],
+            "start": "A0", "considered": ["C0", "C1"]}
+    k = 1 + H.draw(3)
+    n_extra = H.draw(4)
+    only_best = bool(H.draw(2))
+    pop = 4 + H.draw(6)
+    evals = pop * (1 + H.draw(3))
+    seed = H.draw(1000)
+    sched_seed = ctx.S.draw(2**32)
+
+    def comps_of(text):
+        return [float((len(text) * (j + 3) + text.count("C1") * 7 + j) % 23) for j in range(k)]
+
+    def extra_of(j, text):
+        return [str(len(text)), str(text.count("(")), text[:4], str(text.count(","))][j]
+
+    ctx.sample = {"mode": "simplegp", "objectives": k, "extra_fields": n_extra, "only_best": only_best, "population": pop, "evaluations": evals}
+
+    def execute(crash_at):
+        S2 = Chooser("S2", sched_seed)
+        clock = SimClock(ctx, chooser=S2)
+        fs = SimFS(ctx, chooser=S2)
+        fs.crash_at = crash_at
+        clock.on_event = fs.event
+        b = Built(spec)
+        crashed = False
+        try:
+            g = b.extract()
+
+            def ff(p):
+                fs.event("fitness")
+                c = comps_of(str(p))
+                return c if k > 1 else c[0]
+
+            extras = {f"x{j}": (lambda j: lambda p: extra_of(j, str(p)))(j) for j in range(n_extra)} or None
+            with installed_clock(clock), installed_fs(fs):
+                try:
+                    gp = SimpleGP(fitness_function=ff, grammar=g, minimize=([False] * k if k > 1 else False), max_depth=4, max_time=10**6,
+                                  max_evaluations=evals, csv_output="/simfs/simple.csv", csv_extra_fields=extras,
+                                  only_record_best_individuals=only_best, seed=seed, population_size=pop, elitism=1, novelty=1,
+                                  mutation_probability=0.5, crossover_probability=0.5)
+                    gp.search()
+                except SimCrash:
+                    crashed = True
+        finally:
+            b.dispose()
+        img = fs.image("/simfs/simple.csv") if "/simfs/simple.csv" in fs.files else None
+        return img, crashed, fs
+
+    try:
+        img, _, fs0 = execute(None)
+    except Exception as e:
+        ctx.stat("foreign_failure:simplegp:" + type(e).__name__)
+        return
+    ctx.stat("simplegp_runs")
+    if img is None:
+        return
+
+    def judge(img, where):
+        try:
+            rows = list(_csv.reader(io.StringIO(img.decode("utf-8"), newline="")))
+        except Exception:
+            ctx.violate(f"C20/simplegp/{where}/undecodable", "CSV not decodable")
+            return False
+        if img and not img.endswith(b"\n"):
+            ctx.violate(f"C20/simplegp/{where}/torn-row", "file does not end with a complete row")
+            return False
+        if not rows:
+            return True
+        want_header = ["Execution Time", "Phenotype"] + [f"Fitness{j}" for j in range(k)] + [f"x{j}" for j in range(n_extra)]
+        if rows[0] != want_header:
+            ctx.violate(f"C20/simplegp/{where}/header", f"header {rows[0]} expected {want_header}")
+            return False
+        for r in rows[1:]:
+            if len(r) != len(want_header):
+                ctx.violate(f"C20/simplegp/{where}/row-arity", f"row {r}")
+                return False
+            text = r[1]
+            c = comps_of(text)
+            for j in range(k):
+                if float(r[2 + j]) != c[j]:
+                    ctx.violate(f"C20/simplegp/{where}/fitness-column-{'shows-other-component' if float(r[2 + j]) in c else 'wrong'}",
+                                f"row for program {text!r}: Fitness{j}={r[2 + j]}, that program's component {j} is {c[j]}")
+                    return False
+            for j in range(n_extra):
+                if r[2 + k + j] != extra_of(j, text):
+                    others = {extra_of(x, text) for x in range(n_extra) if x != j}
+                    ctx.violate(f"C20/simplegp/{where}/extra-field-{'shows-other-callback' if r[2 + k + j] in others else 'wrong'}",
+                                f"row for program {text!r}: column x{j}={r[2 + k + j]!r}, callback {j} on that program gives {extra_of(j, text)!r}")
+                    return False
+        return True
+
+    if not judge(img, "at-end"):
+        return
+    if len(img) > 0:
+        ctx.nontrivial = True
+    # kills at fitness invocations (always between two registrations)
+    idx = [i for i, kd in enumerate(fs0.event_kinds) if kd == "fitness"]
+    for _ in range(min(len(idx), 4)):
+        j = idx[H.draw(len(idx))]
+        cimg, crashed, _ = execute(j)
+        if crashed and cimg is not None:
+            ctx.stat("crash_points")
+            ctx.stat("crash_between")
+            if not img.startswith(cimg):
+                ctx.violate("C20/simplegp/crash-between-registrations/not-a-prefix", f"kill at seam event {j}: the file is not a prefix of the full log")
+                return
+            if not judge(cimg, "crash-between-registrations"):
+                return
+
+
 def run(ctx):
+    if ctx.H.draw(8) == 7:
+        return run_simplegp(ctx)
     cfg = gen_config(ctx.H, ctx.tier)
     H = ctx.H
     sched_seed = ctx.S.draw(2**32)
